@@ -85,8 +85,7 @@ def gen_scenario(rng, *, family='well', cyclic=False, init_env=False,
         for i in range(ntask):
             if rng.random() < 0.4:
                 ent = {'status': rng.choice(('DONE', 'DONE', 'FAILED',
-                                             'SKIPPED', 'WAITING',
-                                             'PENDING'))}
+                                             'SKIPPED'))}
                 if rng.random() < 0.6:
                     start = 1000.0 + rng.randrange(100)
                     ent['start_clock'] = start
@@ -474,8 +473,9 @@ def oracle_c02(scn, res):
         want = model[i]
         if got != want:
             viol.append(('wrong-status',
-                         'wrong-status:%s-for-%s:%s' % (got, want,
-                                                        spec['outcome']),
+                         'wrong-status:%s-for-%s:%s' % (
+                             got if got in FINAL + ('WAITING', 'PENDING')
+                             else 'other', want, spec['outcome']),
                          {'task': spec['name'], 'got': got, 'want': want,
                           'outcome': spec['outcome']}))
         elif res.raw_status_types.get(i) != 'TaskStatus':
@@ -499,11 +499,16 @@ def oracle_c03(scn, res):
     kind = out[0]
     if kind == 'deadlock':
         if res.main_done:
-            viol.append(('worker-leak', 'worker-leak',
+            viol.append(('worker-leak', 'worker-leak:after-%s'
+                         % (type(res.main_exc).__name__
+                            if res.main_exc is not None else 'return'),
                          {'blocked': res.alive,
                           'main_exc': repr(res.main_exc)[:200]}))
         else:
-            viol.append(('deadlock', 'deadlock',
+            died = sorted({e[1] for e in res.thread_excs})
+            viol.append(('deadlock', 'deadlock:' +
+                         ('worker-died-' + '+'.join(died) if died
+                          else 'all-blocked'),
                          {'blocked': res.alive,
                           'worker_exceptions': res.thread_excs}))
     elif kind == 'steplimit':
